@@ -126,9 +126,9 @@ def enumerate_cases(meta, tier, seed, scheds):
     rnd = random.Random(seed)
     cases = []
 
-    def add(rep, kind, file=-1, off=0, mask=0, integ=0, pre=False, faults=None, exp="any", cls="", solo=False):
-        cases.append({"id": len(cases), "rep": rep, "kind": kind, "file": file, "off": off, "mask": mask, "integ": integ,
-                      "pre": pre, "faults": faults or [], "exp": exp, "cls": cls, "solo": solo})
+    def add(rep, kind, file=-1, off=0, mask=0, integ=0, pre=False, faults=None, exp="any", cls="", solo=False, var=0):
+        cases.append({"id": len(cases), "rep": rep, "kind": kind, "var": var, "file": file, "off": off, "mask": mask,
+                      "integ": integ, "pre": pre, "faults": faults or [], "exp": exp, "cls": cls, "solo": solo})
 
     masks = [0xFF, 0x01, 0x80, 0x10]
     mask = masks[seed % 4]
@@ -138,10 +138,16 @@ def enumerate_cases(meta, tier, seed, scheds):
         for integ in (0, 1, 2):
             add(rid, "intact", integ=integ, exp="ok", cls="intact")
             add(rid, "intact", integ=integ, pre=True, exp="error", cls="exists")
-        if r["reenc"]["ok"]:
+        # corrupted-but-decodable family (every LTX integrity tag valid): damaged page in {page 1 = schema root: the
+        # PRAGMA itself fails, root of t, a leaf of t, last page, two pages of the snapshot file} x damage style
+        # {garbage, zero, wrong cell pointers, 0xFF b-tree header} x IntegrityCheck {None, Quick, Full}
+        for k, ri in enumerate(r["reencs"]):
+            if not ri["ok"]:
+                continue
             for integ in (0, 1, 2):
-                add(rid, "reenc", file=r["reenc"]["file"], integ=integ,
-                    exp="error" if (integ and r["reenc"]["sqliteBad"]) else "ok", cls="tagok")
+                bad = (integ == 1 and ri["badQuick"]) or (integ == 2 and ri["badFull"])
+                add(rid, "reenc", var=k, file=ri["file"], integ=integ, exp="error" if bad else "ok",
+                    cls="tagok:%s:%s%s" % (ri["label"], ri["style"], ":pragmafails" if ri["pragmaFails"] else ""))
         for fi, pf in enumerate(plan):
             size = pf["size"]
             st = structural(pf)
@@ -220,7 +226,7 @@ def enumerate_cases(meta, tier, seed, scheds):
     # identical read-fault cases (the model schedules repeat fault lists) are run once
     seen, out = set(), []
     for c in cases:
-        k = json.dumps([c[x] for x in ("rep", "kind", "file", "off", "mask", "integ", "pre", "faults")])
+        k = json.dumps([c[x] for x in ("rep", "kind", "var", "file", "off", "mask", "integ", "pre", "faults")])
         if k in seen:
             continue
         seen.add(k)
@@ -231,7 +237,7 @@ def enumerate_cases(meta, tier, seed, scheds):
 
 def model_class_count(F, PB, collisions=True):
     blocks = PB + 3
-    return (1 + F + F * blocks + F * blocks * (2 if collisions else 1)) * 8
+    return (1 + F + F * blocks + F * blocks * (2 if collisions else 1)) * 12      # x pre x integ x sqliteSees
 
 
 # ----------------------------------------------------------------------------------------------------------------
@@ -308,13 +314,13 @@ def main():
         # ---- R1 (runs concurrently with the replica build)
         pool = ThreadPoolExecutor(max_workers=6)
         jobs = [("MC_Restore_reader", "B=3 MaxRetries=3 MaxFaults=5"),
-                ("MC_Restore_proto", "F=3 PB=2 Collisions X1Fixed"),
-                ("MC_Restore_proto_asis", "F=3 PB=2 as-is (X1)")]
+                ("MC_Restore_proto", "F=3 PB=2 Collisions X1Fixed")]
         if tier == "thorough":
             jobs += [("MC_Restore_reader5", "B=5 MaxFaults=6"), ("MC_Restore_proto5", "F=5 PB=4"),
                      ("MC_Restore_reader_noadvance", "negative control"), ("MC_Restore_reader_resume0", "negative control"),
                      ("MC_Restore_proto_nocheck", "negative control"), ("MC_Restore_proto_keepbad", "negative control"),
-                     ("MC_Restore_proto_direct", "negative control")]
+                     ("MC_Restore_proto_direct", "negative control"), ("MC_Restore_proto_sentinel", "negative control"),
+                     ("MC_Restore_proto_asis", "negative control: the code before the X1 fix (7443bc1)")]
         futs = [pool.submit(tlc_in, wd, n, "Restore", n + ".cfg", workers=2, timeout=900) for n, _ in jobs]
         dot = os.path.join(wd, "g.dot")
         fdump = pool.submit(tlc_in, wd, "dump", "Restore", "Dump_Restore_reader.cfg", workers=1, timeout=900,
@@ -336,8 +342,11 @@ def main():
         for r in meta["replicas"]:
             if not r["anchored"]:
                 rep.notes.append("replica %d: intact restore differs from the source database (C01's business, reference kept)" % r["id"])
-            if not r["reenc"]["ok"]:
-                rep.notes.append("replica %d: no corrupted-but-decodable input (%s)" % (r["id"], r["reenc"]["note"]))
+            for ri in r["reencs"]:
+                if not ri["ok"]:
+                    rep.notes.append("replica %d: corrupted-but-decodable input %s/%s not usable (%s)" % (r["id"], ri["label"], ri["style"], ri["note"]))
+            if not any(ri["ok"] and ri["pragmaFails"] for ri in r["reencs"]) or not any(ri["ok"] and ri["badQuick"] and not ri["pragmaFails"] for ri in r["reencs"]):
+                rep.notes.append("replica %d: the corrupted-but-decodable family lacks a 'PRAGMA fails' or a 'PRAGMA answers rows' member" % r["id"])
         rep.cov["replicas"] = [{"id": r["id"], "ps": r["ps"], "steps": "".join(s[0] if s == "w" else "[" + s + "]" for s in r["steps"]),
                                 "plan": [[p["level"], p["min"], p["max"], p["size"]] for p in r["plan"]]} for r in meta["replicas"]]
 
@@ -373,12 +382,7 @@ def main():
             _, r, _ = f.result()
             vlib.tlc_expect_ok(r, n)
             rep.add_tlc(n, r, consts)
-            if n == "MC_Restore_proto_asis":
-                if "P_NoPanic" in r.violated:
-                    rep.notes.append("model (as-is, X1Fixed=FALSE): P_NoPanic violated by a truncation leaving 0..7 bytes after the page block = finding X1 at design level")
-                else:
-                    rep.notes.append("model as-is did not show the X1 panic")
-            elif "noadvance" in n or "resume0" in n or "nocheck" in n or "keepbad" in n or "direct" in n:
+            if any(x in n for x in ("noadvance", "resume0", "nocheck", "keepbad", "direct", "sentinel", "proto_asis")):
                 rep.cov.setdefault("negative_controls", {})[n] = r.violated
                 if not r.violated:
                     rep.notes.append("negative control %s violated nothing: the model invariants are too weak" % n)
@@ -432,9 +436,9 @@ def main():
                     rep.known_finding(known[0]["id"], known[0].get("what", "X1"))
                     continue
             n_viol += 1
-            rep.violation("restore invariant(s) %s violated by the real Replica.Restore: %s file=%d off=%d mask=%d integ=%d pre=%s faults=%s -> res=%s (%s) outExists=%s" % (
+            rep.violation("restore invariant(s) %s violated by the real Replica.Restore: %s file=%d off=%d mask=%d integ=%d pre=%s faults=%s -> res=%s (%s) outExists=%s sideLeft=%s [%s]" % (
                 names, o["kind"], o["file"], o["off"], o["mask"], o["integ"], o["pre"], json.dumps(c["faults"])[:200],
-                o["res"], o["msg"][:120], o["outExists"]),
+                o["res"], o["msg"][:120], o["outExists"], o["sideLeft"], c["cls"]),
                 {"replicas": [spec_by_id[o["rep"]]], "descriptor": c, "violated": names, "observed": o})
         rep.cov["x1_cases"] = n_x1
         if x1_example:
@@ -442,7 +446,7 @@ def main():
 
         # ---- binding (model prediction vs real outcome), coverage
         div, harmless, tmp_left, short_sleep, nontrivial = [], 0, 0, 0, set()
-        by_kind, err_classes, classes_hit = {}, {}, set()
+        by_kind, err_classes, classes_hit, reenc_stats = {}, {}, set(), {}
         for o, c in zip(obs, cases):
             by_kind[o["kind"]] = by_kind.get(o["kind"], 0) + 1
             if o["res"] == "error":
@@ -457,6 +461,11 @@ def main():
                 div.append(o)
             if o["kind"] == "flip" and o["res"] == "ok":
                 harmless += 1
+            if o["kind"] == "reenc":
+                ri = by_id[o["rep"]]["reencs"][o["var"]]
+                key = "%s/%s integ=%d -> %s%s" % (ri["label"], "pragma-fails" if ri["pragmaFails"] else ("rows" if ri["badQuick"] else "clean"),
+                                                  o["integ"], o["res"], "" if o["detectable"] else " (not detectable)")
+                reenc_stats[key] = reenc_stats.get(key, 0) + 1
             # R_BackoffLaw: k retries sleep 250 ms * (2^min(k, budget) - 1) in total (resumable_reader.go:177)
             if o["kind"] == "readfault" and not any(f["kind"] == "gone" for f in c["faults"]):
                 if o["ms"] < 250 * (2 ** min(o["nf"], BUDGET) - 1) - 5:
@@ -465,7 +474,7 @@ def main():
                 tmp_left += 1
             reopened = len(o["opens"]) > len(set(x[0] for x in o["opens"]))
             if (o["res"] == "error" and o["kind"] != "intact") or (o["res"] == "ok" and reopened) or o["res"] == "panic":
-                nontrivial.add((o["rep"], o["kind"], o["file"], o["off"], o["mask"], o["integ"], o["pre"], json.dumps(c["faults"])))
+                nontrivial.add((o["rep"], o["kind"], o["var"], o["file"], o["off"], o["mask"], o["integ"], o["pre"], json.dumps(c["faults"])))
         for o in div[:5]:
             rep.notes.append("DIVERGENCE module=Restore case=%s" % json.dumps({k: o[k] for k in ("rep", "kind", "file", "off", "mask", "integ", "pre", "nf", "exp", "res", "errc", "msg")})[:500])
         if tmp_left:
@@ -481,9 +490,10 @@ def main():
         rep.cov["error_classes"] = err_classes
         rep.cov["panics"] = info.get("crashes", 0)
         rep.cov["flips_without_effect_on_output"] = harmless
+        rep.cov["valid_ltx_damaged_database"] = reenc_stats
         rep.cov["distinct_nontrivial"] = len(nontrivial)
         rep.cov["rule"] = ("one case = one real Replica.Restore of a real replica with one corruption (delete / missing at open / "
-                           "truncate at o / flip byte o / re-encoded valid-but-damaged file) or one read-fault schedule (reader-model "
+                           "truncate at o / flip byte o / a valid LTX re-encoding with damaged database page(s), 5 page choices x 4 styles x 3 integrity modes) or one read-fault schedule (reader-model "
                            "behaviours + per offset class k in {1,2,budget,budget+2}); non-trivial = the restore had to detect the "
                            "corruption (error outcome), resumed a stream at least once and still succeeded, or crashed")
         for o in obs:
